@@ -1,8 +1,35 @@
 """C11 configuration for /verif/check."""
 PROP = dict(
         module='kernel', pkg='device/acpi/aml', pkgname='aml', harness=['aml/c11_test.go', 'aml/amlcommon_test.go'],
-        n=dict(quick=400, thorough=8000),
+        n=dict(quick=400, thorough=6000),
         timeout=dict(quick=900, thorough=5400),
         nontrivial=r'^T .*\| ok ',
-        rule='TODO', trusted=[], assumptions=[], level_text='TODO', level_note='TODO',
+        rule='one evaluation = one table (1-3 per case) of a program generated from the grammar subset (Lean type AmlProg.Obj), '
+             'encoded by the Go twin of the Lean encoder (compared byte for byte), parsed by the real ParseAML in a child process; '
+             'the dumped object pool is compared with the Lean parser model and nsOf(pool) with the executable specification '
+             'namespaceOf(program): absolute path -> kind, arguments and values of every named object, and (target, attached '
+             'argument count) of every method invocation; distinct = by hash of the line; non-trivial = the table parsed',
+        trusted=['the generator only emits programs that are well-scoped by construction (namespaceOf reports errors otherwise, '
+                 'which the driver prints as a MISMATCH, never as a pass)',
+                 'the namespace is read from the dumped object pool (links, names, values), not through Find/ObjectAt (C13 covers Find)',
+                 'statement order inside method bodies is not part of the namespace and is not compared with the program'],
+        assumptions=['grammar subset: Name/Scope/Device/Method/OpRegion/Field/Mutex/Event/Processor/PowerResource/ThermalZone, '
+                     'integer/string/buffer/package data, Store/Return/Add/If/While/calls with 0-7 arguments (forward, backward, nested), '
+                     'all name forms, every PkgLength width, 1-3 tables'],
+        level_text='proof (partial). Lean theorems for all inputs: const_roundtrip (integer constants decode to the encoded value and '
+                   'advance exactly), facts_agree (the generated tables this run saw are the ones the parser model is built on); the '
+                   'lexical layer shared with C12 (reader_inv, slices_in_table_partial, opcode_table_sane) applies to every decoder used. '
+                   'The property itself - parseAML(encode p) succeeds and nsOf = namespaceOf p - is NOT a theorem: it is decided for every '
+                   'generated program by the executable specification namespaceOf (ACPI scoping rules written directly) and the '
+                   'differential oracle on the real parser, and it is false today for six program shapes (known findings).',
+        level_note='Partial: no whole-parser theorem (parse_encode, flat_decls_partial, call_arity_partial, pkglen/name/string round trips '
+                   'are not proved; only const_roundtrip and the shared lexical safety theorems are). Known findings (reported as '
+                   'KNOWN-FINDING, each with a witness in the deterministic boundary list): multi-segment paths through a Device are '
+                   'rejected (D6); ^-prefixed declarations inside a Device land one level too low; a call whose argument is an '
+                   'expression gets the wrong arguments; an If without object-creating body fails/swallows the next statement; inside '
+                   'a While a nested If/While drops the statements after it; inside a While a call operand of an expression is '
+                   'unresolvable. About 70% of the generated cases avoid these shapes and must pass the whole oracle. '
+                   'Trusted: Lean kernel (+ propext, Classical.choice, Quot.sound), namespaceOf as the reading of the ACPI scoping '
+                   'rules, the generator/encoder twins (cross-checked), the harness; two defects found here were repaired in /repo '
+                   '(8-bit MultiNamePath length; prefix+NullName names such as Scope(\\) rejected).',
 )
